@@ -97,7 +97,7 @@ def run(tier, t0):
     c = prog.crate('breakpad_symbols')
     fs = need_fn(res, c, PARSE, 'C10.1')
     fa = need_fn(res, c, PARSE_ASYNC, 'C10.1')
-    res.rule('C10.1', 0, floor=6, note='consume(n) always preceded by callback(&buf.data()[..n]); no other way for bytes to leave the window')
+    res.rule('C10.1', 0, floor=4, note='consume(n) always preceded by callback(&buf.data()[..n]); no other way for bytes to leave the window')
     n = 0
     for f in (fs, fa):
         if f is not None:
@@ -205,20 +205,30 @@ def run(tier, t0):
         rp = [t for b, t in pm.calls() if pm.callee_decl(t).endswith('Iterator::rposition') or pm.callee(t).endswith('::rposition')]
         if not rp:
             res.violation('C10.2', 'C10.2|trim', pm, pm.line, 'input is not trimmed to its last newline (rposition)')
-    # C10.3 sync and async are the same state machine
-    res.rule('C10.3', 0, floor=20, note='transition table (effects with their flag guards) of parse equals that of parse_async')
+    # C10.3 sync and async are the same state machine: their boolean abstractions (rules/parseloop.py) have the same
+    # transitions - abstract state before, abstract state after, progress, and the sequence of window / parser / callback
+    # effects on the way.  (Statement-level equality of the two bodies was dropped: a behaviour-preserving clean-up of
+    # one twin made it fire.)
+    res.rule('C10.3', 0, floor=20, note='the abstract transition systems (with effect traces) of parse and parse_async are equal')
     if fs is not None and fa is not None:
-        ts, ta = transition_table(fs), transition_table(fa)
-        res.rule('C10.3', len(ts | ta))
-        only_s = sorted(ts - ta)
-        only_a = sorted(ta - ts)
-        # the reader block differs by design: Read::read vs the chunk refill; those are not in the table (not Buffer / flags effects)
-        for e in only_s:
-            res.violation('C10.3', 'C10.3|sync-only|%s|%s' % (e[0][:60], ';'.join(e[1])[:80]), fs, fs.line, 'transition only in parse: %s when %s' % (e[0], list(e[1])))
-        for e in only_a:
-            res.violation('C10.3', 'C10.3|async-only|%s|%s' % (e[0][:60], ';'.join(e[1])[:80]), fa, fa.line, 'transition only in parse_async: %s when %s' % (e[0], list(e[1])))
-        if not only_s and not only_a:
-            res.sample({'rule': 'C10.3', 'transitions': len(ts), 'example': [list(x) for x in sorted(ts)[:3]]})
+        from . import parseloop
+        sets = []
+        for g in (fs, fa):
+            try:
+                m = parseloop.Model(g)
+                init, graph = m.explore()
+                sets.append(set((m.describe(x), m.describe(y), pr, tr) for (x, y, pr, tr) in m.traced))
+            except RuntimeError as e:
+                res.error('C10.3', str(e))
+        if len(sets) == 2:
+            ts, ta = sets
+            res.rule('C10.3', len(ts | ta))
+            for e in sorted(ts - ta)[:6]:
+                res.violation('C10.3', 'C10.3|sync-only|%s' % '|'.join(str(x) for x in e)[:160], fs, fs.line, 'iteration only possible in parse: %s -> %s (%s) doing %s' % (e[0], e[1], 'progress' if e[2] else 'no progress', list(e[3])))
+            for e in sorted(ta - ts)[:6]:
+                res.violation('C10.3', 'C10.3|async-only|%s' % '|'.join(str(x) for x in e)[:160], fa, fa.line, 'iteration only possible in parse_async: %s -> %s (%s) doing %s' % (e[0], e[1], 'progress' if e[2] else 'no progress', list(e[3])))
+            if ts == ta:
+                res.sample({'rule': 'C10.3', 'transitions': len(ts), 'example': [list(x) for x in sorted(ts)[:2]]})
     # C10.4 the cache tee is the callback (shared with C16.3)
     res.rule('C10.4', 0, floor=1, note='fetch_symbol_file hands a closure whose only effect is writing `data` to the temp file')
     fsf = c.fn('breakpad_symbols::http::fetch_symbol_file::{closure#0}')
